@@ -57,13 +57,32 @@ impl<'de> Deserialize<'de> for Detection {
                 let mut identifiers: HashMap<String, Expression> = HashMap::new();
                 let mut identifiers_raw: HashMap<String, Yaml> = HashMap::new();
                 let mut expression = None;
-                while let Some(key) = map.next_key::<String>()? {
+                // NOTE: Keys and the condition are read as YAML so that a plain scalar such as `1` or
+                // `true` is typed the same whether the rule comes from text or from a value
+                while let Some(key) = map.next_key::<Yaml>()? {
+                    let key = match key {
+                        Yaml::String(key) => key,
+                        key => {
+                            return Err(de::Error::custom(format_args!(
+                                "invalid type: identifier must be a string, encountered - {:?}",
+                                key
+                            )));
+                        }
+                    };
                     match key.as_ref() {
                         "condition" => {
                             if expression.is_some() {
                                 return Err(de::Error::duplicate_field("condition"));
                             }
-                            expression = Some(map.next_value::<String>()?);
+                            match map.next_value::<Yaml>()? {
+                                Yaml::String(condition) => expression = Some(condition),
+                                condition => {
+                                    return Err(de::Error::custom(format_args!(
+                                        "invalid type: condition must be a string, encountered - {:?}",
+                                        condition
+                                    )));
+                                }
+                            }
                         }
                         _ => {
                             if identifiers.contains_key(&key) {
@@ -471,8 +490,25 @@ pub struct Rule {
     optimised: bool,
 
     pub detection: Detection,
+    #[serde(deserialize_with = "examples")]
     pub true_positives: Vec<Yaml>,
+    #[serde(deserialize_with = "examples")]
     pub true_negatives: Vec<Yaml>,
+}
+
+// NOTE: A value deserialises null as an empty sequence where text does not, read the examples as
+// YAML so that both insist on a sequence
+fn examples<'de, D>(deserializer: D) -> Result<Vec<Yaml>, D::Error>
+where
+    D: Deserializer<'de>,
+{
+    match Yaml::deserialize(deserializer)? {
+        Yaml::Sequence(examples) => Ok(examples),
+        examples => Err(de::Error::custom(format_args!(
+            "invalid type: examples must be a sequence, encountered - {:?}",
+            examples
+        ))),
+    }
 }
 
 impl Rule {
